@@ -2,7 +2,8 @@
    Part 1: listing and id registration (plain inductions over the run).
    Part 2: the chunked buffer.
    Part 3: the pending-ancestor stack: forwarded = needed entries, each once, in order.
-   Part 4: the forwarded stream is accepted by both validators. *)
+   Part 4: the forwarded stream is accepted by both validators.
+   Part 5: exact contents of the pending stack after any accepted prefix. *)
 From Coq Require Import List NArith Lia Bool Arith.
 From FS Require Import Sx Model.Path Model.Stat Model.Validator Model.Hardlinks Model.MetaOnly
   Proofs.Lex Proofs.PathP Proofs.ValidatorP.
@@ -746,3 +747,127 @@ Proof.
   intros Hv Hn. pose proof (forwarded_exact_proof sel stats) as H.
   rewrite (recv_stream_id stats Hn) in H. apply H. exact Hv.
 Qed.
+
+(* ================= Part 5: the stack, exactly ================= *)
+Section Part5.
+Variable sel : stat -> bool.
+
+Record Inv2 (acc : list stat) (c : cpath) (stk : list stat) : Prop := {
+  i2_pre : forall d, In d stk -> is_prefix (cp d) c;
+  i2_nosel : forall d t, In d stk -> In t acc -> sel t = true -> ~ is_prefix (cp d) (cp t);
+  i2_all : forall q, In q acc -> sel q = false -> st_is_dir q = true -> is_prefix (cp q) c ->
+           (forall t, In t acc -> sel t = true -> ~ is_prefix (cp q) (cp t)) -> In q stk
+}.
+
+Definition next_stack (stk : list stat) (s : stat) : list stat :=
+  let stk1 := mpop (dir (st_path s)) stk in
+  if sel s then [] else if st_is_dir s then s :: stk1 else stk1.
+
+Lemma next_stack_cases stk s :
+  let stk1 := mpop (dir (st_path s)) stk in
+  (next_stack stk s = [] /\ (sel s = true \/ stk1 = [])) \/ (next_stack stk s = stk1 /\ sel s = false /\ st_is_dir s = false)
+  \/ (next_stack stk s = s :: stk1 /\ sel s = false /\ st_is_dir s = true).
+Proof.
+  unfold next_stack. cbv zeta. destruct (sel s); [left; auto|]. destruct (st_is_dir s); [right; right; auto|right; left; auto].
+Qed.
+
+Lemma inv_next acc c stk s : Inv sel acc c stk -> step_ok acc s -> Inv sel (acc ++ [s]) (cp s) (next_stack stk s).
+Proof.
+  intros HI Hs. apply (inv_step sel acc c stk s (next_stack stk s) HI Hs).
+  destruct (next_stack_cases stk s) as [[-> _]|[(-> & H1 & H2)|(-> & H1 & H2)]]; auto.
+Qed.
+
+Lemma inv2_next acc c stk s :
+  Inv sel acc c stk -> Inv2 acc c stk -> step_ok acc s -> Inv2 (acc ++ [s]) (cp s) (next_stack stk s).
+Proof.
+  intros HI H2 Hstep.
+  destruct (step_facts sel acc c stk s HI Hstep) as (popped & Hsplit & S1 & Htop & S2).
+  set (stk1 := mpop (dir (st_path s)) stk) in *.
+  pose proof Hstep as (Hok & Hlt & Hpar).
+  assert (Hin1 : forall d, In d stk1 -> In d stk) by (intros d Hd; rewrite Hsplit; apply in_or_app; right; exact Hd).
+  assert (Hcs : lex c (cp s) <> Gt).
+  { destruct (inv_c _ _ _ _ HI) as [->|(q0 & Hq0 & <-)]; [apply lex_nil_l|]. rewrite (Hlt q0 Hq0). discriminate. }
+  unfold next_stack. fold stk1. destruct (sel s) eqn:Es.
+  - (* selected: empty stack; nothing qualifies any more *)
+    constructor; [intros d []|intros d t []|].
+    intros q Hq Hsq Hdq Hpq Hno. exfalso. apply (Hno s); [apply in_or_app; right; left; reflexivity|exact Es|exact Hpq].
+  - (* unselected *)
+    assert (Hno1 : forall d t, In d stk1 -> In t (acc ++ [s]) -> sel t = true -> ~ is_prefix (cp d) (cp t)).
+    { intros d t Hd Ht Hst. apply in_app_or in Ht. destruct Ht as [Ht|[<-|[]]]; [|congruence].
+      apply (i2_nosel _ _ _ H2 d t (Hin1 d Hd) Ht Hst). }
+    assert (Hall1 : forall q, In q acc -> sel q = false -> st_is_dir q = true -> is_prefix (cp q) (cp s) ->
+              (forall t, In t (acc ++ [s]) -> sel t = true -> ~ is_prefix (cp q) (cp t)) -> In q stk1).
+    { intros q Hq Hsq Hdq Hpq Hno.
+      assert (Hqc : is_prefix (cp q) c).
+      { apply (prefix_interval (cp q) c (cp s)); [exact Hpq|apply (inv_le _ _ _ _ HI); exact Hq|exact Hcs]. }
+      assert (Hqs : In q stk).
+      { apply (i2_all _ _ _ H2 q Hq Hsq Hdq Hqc). intros t Ht. apply Hno. apply in_or_app. left. exact Ht. }
+      rewrite Hsplit in Hqs. apply in_app_or in Hqs. destruct Hqs as [Hqp|]; [|assumption].
+      exfalso. exact (S2 q Hqp Hpq). }
+    assert (Hpre1 : forall d, In d stk1 -> is_prefix (cp d) (cp s)).
+    { intros d Hd. destruct (S1 d Hd) as (y & _ & E). exists y. exact E. }
+    destruct (st_is_dir s) eqn:Ed.
+    + constructor.
+      * intros d [<-|Hd]; [apply prefix_refl|apply Hpre1; exact Hd].
+      * intros d t [<-|Hd] Ht Hst; [|apply Hno1; auto].
+        apply in_app_or in Ht. destruct Ht as [Ht|[<-|[]]]; [|congruence].
+        intro Hp. apply prefix_le in Hp. apply Hp. rewrite lex_opp, (Hlt t Ht). reflexivity.
+      * intros q Hq Hsq Hdq Hpq Hno. apply in_app_or in Hq. destruct Hq as [Hq|[<-|[]]]; [right|left; reflexivity].
+        apply Hall1; auto.
+    + constructor; [exact Hpre1|exact Hno1|].
+      intros q Hq Hsq Hdq Hpq Hno. apply in_app_or in Hq. destruct Hq as [Hq|[<-|[]]]; [|congruence].
+      apply Hall1; auto.
+Qed.
+
+Lemma inv2_init : Inv2 [] [] [].
+Proof. constructor; [intros d []|intros d t []|intros q []]. Qed.
+
+Lemma mstack_cons stk s l : is_listing s = false -> mstack sel stk (s :: l) = mstack sel (next_stack stk s) l.
+Proof.
+  intros H. cbn [mstack]. rewrite H. unfold next_stack. cbv zeta.
+  destruct (sel s); [reflexivity|]. destruct (st_is_dir s); reflexivity.
+Qed.
+
+Lemma last_cons_default {A} (l : list A) : forall x d, last (x :: l) d = last l x.
+Proof.
+  induction l as [|y l IH]; intros x d; [reflexivity|].
+  change (last (x :: y :: l) d) with (last (y :: l) d). rewrite (IH y d), (IH y x). reflexivity.
+Qed.
+
+Lemma mstack_inv l : forall acc c stk,
+  cvalid acc l -> Inv sel acc c stk -> Inv2 acc c stk -> (forall x, In x l -> is_listing x = false) ->
+  Inv sel (acc ++ l) (last (map cp l) c) (mstack sel stk l) /\ Inv2 (acc ++ l) (last (map cp l) c) (mstack sel stk l).
+Proof.
+  induction l as [|s r IH]; intros acc c stk Hv HI H2 Hnl.
+  - cbn [map last mstack]. rewrite app_nil_r. auto.
+  - destruct Hv as [Hstep Hv'].
+    rewrite (mstack_cons stk s r (Hnl s (or_introl eq_refl))).
+    cbn [map]. rewrite last_cons_default.
+    replace (acc ++ s :: r) with ((acc ++ [s]) ++ r) by (rewrite <- app_assoc; reflexivity).
+    apply IH; auto.
+    + apply (inv_next acc c stk s); auto.
+    + apply (inv2_next acc c stk s); auto.
+    + intros x Hx. apply Hnl. right. exact Hx.
+Qed.
+
+(* after an accepted prefix pre ++ [cur] of the stream the pending stack is a parent chain and
+   holds exactly the unselected directories of the prefix that are ancestors-or-self of the
+   current entry and have no selected entry at or below them so far (= not yet forwarded) *)
+Theorem stack_exact_proof pre cur :
+  valid_stream (pre ++ [cur]) -> (forall x, In x (pre ++ [cur]) -> is_listing x = false) ->
+  chain_ok (mstack sel [] (pre ++ [cur])) /\
+  forall d, In d (mstack sel [] (pre ++ [cur])) <->
+    (In d (pre ++ [cur]) /\ sel d = false /\ st_is_dir d = true /\ is_prefix (cp d) (cp cur)
+     /\ forall t, In t (pre ++ [cur]) -> sel t = true -> ~ is_prefix (cp d) (cp t)).
+Proof.
+  intros Hv Hnl.
+  destruct (mstack_inv (pre ++ [cur]) [] [] [] (valid_stream_cvalid _ Hv) (inv_init sel) inv2_init Hnl) as [HI H2].
+  cbn [app] in HI, H2. rewrite map_app in HI, H2. cbn [map] in HI, H2. rewrite last_last in HI, H2.
+  split; [apply (inv_chain _ _ _ _ HI)|].
+  intros d. split.
+  - intros Hd. destruct (inv_mem _ _ _ _ HI d Hd) as (H1 & H3 & H4).
+    repeat split; auto; [apply (i2_pre _ _ _ H2 d Hd)|].
+    intros t Ht Hst. apply (i2_nosel _ _ _ H2 d t Hd Ht Hst).
+  - intros (H1 & H3 & H4 & H5 & H6). apply (i2_all _ _ _ H2 d); auto.
+Qed.
+End Part5.
